@@ -120,3 +120,36 @@ func sortedKeys[V any](m map[string]V) []string {
 	sort.Strings(ks)
 	return ks
 }
+
+// RaceFrames returns, for the access stacks of one race report, the innermost
+// frame of the code under test of each (sorted); fewer than two entries when
+// some access stack has no such frame.
+func RaceFrames(rep string) []string {
+	var out []string
+	for _, sec := range strings.Split(rep, "\n\n") {
+		t := strings.TrimSpace(sec)
+		if strings.HasPrefix(t, "WARNING: DATA RACE") {
+			t = strings.TrimSpace(strings.TrimPrefix(t, "WARNING: DATA RACE"))
+		}
+		if !(strings.HasPrefix(t, "Read at") || strings.HasPrefix(t, "Write at") || strings.HasPrefix(t, "Previous read at") || strings.HasPrefix(t, "Previous write at")) {
+			continue
+		}
+		found := ""
+		for _, l := range strings.Split(t, "\n") {
+			l = strings.TrimSpace(l)
+			if strings.HasPrefix(l, "github.com/rhysd/actionlint.") {
+				found = strings.TrimPrefix(l, "github.com/rhysd/actionlint.")
+				if i := strings.LastIndex(found, "("); i > 0 {
+					found = found[:i]
+				}
+				break
+			}
+		}
+		if found == "" {
+			return nil
+		}
+		out = append(out, found)
+	}
+	sort.Strings(out)
+	return out
+}
